@@ -367,7 +367,7 @@ def gen_message(rng, enums, cov, version=4):
     verts = [ub(x) for x in cfgn] if rng.random() < 0.7 else []          # the reader ignores the vertex list
     if rng.random() < 0.3:
         # ... whatever it holds: UUIDs of nodes that are no CFG nodes, unknown UUIDs, repeats
-        junk = [ub(rng.getrandbits(128)), ub(0)] + [ub(x) for x in sorted(used)[:4]] + verts[:1]
+        junk = [ub(rng.getrandbits(128)), ub(0), [7] * 15, [], list(range(17))] + [ub(x) for x in sorted(used)[:4]] + verts[:1]
         verts = verts + [rng.choice(junk) for _ in range(rng.choice([1, 2, 3]))]
         rng.shuffle(verts)
         cov.hit("vertices-with-junk")
